@@ -3,6 +3,7 @@
 from __future__ import annotations
 
 from ..layout import META_KINDS
+from ..layout import at_indent_zero, indent_is_zero
 from ..rendercheck import (TG, TL, describe, fmt, frames, model, preconditions, proj_layout, spec_for, walk,
                            _state_text)
 from ..report import Ctx
@@ -46,6 +47,8 @@ def check(ctx: Ctx) -> None:
                 continue
             got = proj_layout(r.tokens)
             want = proj_layout(spec["tokens"])
+            if r.indent_zero:
+                got, want = at_indent_zero(got), at_indent_zero(want)    # this path only exists for indent == 0
             ctx.check(got == want, "C06.table", what, TL, what,
                       f"layout differs from the documented rule: emits {fmt(r.tokens)}; rule says {fmt(spec['tokens'])}",
                       witness=f"state {_state_text(step)}")
@@ -56,7 +59,10 @@ def check(ctx: Ctx) -> None:
         want = proj_layout(spec_for(m, sc))
         for leaf, toks, free in hits:
             nf += 1
-            ctx.check(proj_layout(toks) == want, "C06.frame", f"frame {sc!r}", TG, f"frame: {sc!r}",
+            got_f, want_f = proj_layout(toks), want
+            if indent_is_zero(leaf.atoms):
+                got_f, want_f = at_indent_zero(got_f), at_indent_zero(want_f)
+            ctx.check(got_f == want_f, "C06.frame", f"frame {sc!r}", TG, f"frame: {sc!r}",
                       f"element frame differs from the documented rule: emits {fmt(toks)}; rule says {fmt(spec_for(m, sc))}"
                       + (f" (under extra condition {free[0][0]})" if free else ""))
     ctx.count("frame scenario x path comparisons", nf)
